@@ -280,10 +280,12 @@ PROPS = {
     },
     "C20": {
         "level": "model_checking",
-        "claim": "The double-checked Once initialisation is specified as a state machine with one action per critical section (Check1 = the "
-                 "unsynchronised fast-path read, EnterOnce, Construct, Publish, Complete, Check2, Return); TLC explores every interleaving of 3 "
-                 "threads x 2 keys x 2 calls (43k states): each key is constructed at most once, every return is a complete object, the same for "
-                 "a key, and every call terminates under fairness; the variants without Once / with a torn publication violate the invariants "
+        "claim": "The Once-based initialisation is specified as a state machine with one action per critical section (Check1 = the "
+                 "unsynchronised fast-path read of the ORIGINAL code, absent from the repaired code: constant FastPath; EnterOnce, Construct, "
+                 "Publish - atomic or torn in two steps -, Complete, Check2, Return); TLC explores every interleaving of 3 threads x 2 keys x 2 "
+                 "calls (57k states): each key is constructed at most once, every return is a complete object, the same for a key, and every call "
+                 "terminates under fairness, EVEN IF the store into the slot is torn; the original code (FastPath) with a torn store violates "
+                 "NoTorn - the defect F25 that the races then exhibited on the real crate - and the variant without Once violates BuiltOnce "
                  "(non-vacuity). Real races: many fresh processes (the statics initialise once per process), 2..16 threads released by a barrier "
                  "first-use several depths of both tables (Layer via nested::get_or_create, constants via largest_center_to_vertex_distance); "
                  "inv / resp (harness) and construct (cfg-guarded hook in Layer::new and ConstantsC2V::new, with an optional busy-wait widening the "
@@ -293,8 +295,8 @@ PROPS = {
         "rule": "one evaluation = one recorded event; one trace = the history of one process run; non-trivial = distinct histories",
         "assumptions": ["TLC / SANY and the CommunityModules Json/IOUtils are correct",
                         "the hook log's mutex gives a total order consistent with real time; the hook only adds a log entry and an optional delay at the top of the constructors",
-                        "publication of the slot is modelled as atomic (Torn = FALSE): whether the unsynchronised read can observe a partially written "
-                        "Option<Layer> is decided only by observation (the probes); the torn variant of the model violates NoTorn (MC_Lazy_torn.cfg)"],
+                        "in the trace specification a torn object is never an acceptable explanation of a response (Torn = FALSE there): a failed "
+                        "probe rejects the history"],
         "stages": [
             {"kind": "mc", "module": "Lazy", "cfg": "MC_Lazy.cfg", "workers": 6},
             {"kind": "race", "runs": {"quick": 80, "thorough": 1500}, "profiles": ["release", "debug"]},
